@@ -54,7 +54,7 @@ func unalignedFamilies(w *world, rep *vevid.Report) {
 				return
 			}
 			if err := w.box.Flush(shardID, w.bothFamilies()); err != nil {
-				vevid.Fatal("special flush: %v", err)
+				vevid.OpFailed("special flush: %v", err)
 			}
 			w.flushedSinceOpen = true
 			w.seq++
@@ -69,7 +69,7 @@ func unalignedFamilies(w *world, rep *vevid.Report) {
 				w.newTick()
 				v := writeValues[k%len(writeValues)]
 				if err := w.writePoint(metric, "a", p.t, v, 0); err != nil {
-					vevid.Fatal("special write: %v", err)
+					vevid.OpFailed("special write: %v", err)
 				}
 				w.lastCreate = fasttime.UnixNano()
 				m.write("a", p.t, v)
@@ -78,7 +78,7 @@ func unalignedFamilies(w *world, rep *vevid.Report) {
 			}
 			if after == "F" {
 				if err := w.box.Flush(shardID, w.bothFamilies()); err != nil {
-					vevid.Fatal("special flush: %v", err)
+					vevid.OpFailed("special flush: %v", err)
 				}
 				m.flush()
 			}
@@ -100,7 +100,7 @@ func partialFields(w *world, rep *vevid.Report) {
 			p.Fields = append(p.Fields, vbox.FieldValue{Name: fieldName(ft), Type: ft, Value: v})
 		}
 		if err := w.box.WriteMulti(shardID, p); err != nil {
-			vevid.Fatal("special write: %v", err)
+			vevid.OpFailed("special write: %v", err)
 		}
 		w.lastCreate = fasttime.UnixNano()
 	}
@@ -108,12 +108,12 @@ func partialFields(w *world, rep *vevid.Report) {
 		switch op {
 		case "F":
 			if err := w.box.Flush(shardID, w.bothFamilies()); err != nil {
-				vevid.Fatal("special flush: %v", err)
+				vevid.OpFailed("special flush: %v", err)
 			}
 			w.flushedSinceOpen = true
 		case "R":
 			if err := w.reopen(); err != nil {
-				vevid.Fatal("special reopen: %v", err)
+				vevid.OpFailed("special reopen: %v", err)
 			}
 			w.flushedSinceOpen = false
 		}
@@ -335,7 +335,7 @@ func sameTick(w *world, rep *vevid.Report) {
 		for try := 0; try < 40 && !ok; try++ {
 			// both families must be without a memory database: flush what is there
 			if err := w.box.Flush(shardID, w.bothFamilies()); err != nil {
-				vevid.Fatal("special flush: %v", err)
+				vevid.OpFailed("special flush: %v", err)
 			}
 			w.flushedSinceOpen = true
 			w.seq++
@@ -348,10 +348,10 @@ func sameTick(w *world, rep *vevid.Report) {
 			}
 			t0 := fasttime.UnixNano()
 			if err := w.writePoint(metric, "a", slotOf("same"), 4, 0); err != nil {
-				vevid.Fatal("special write: %v", err)
+				vevid.OpFailed("special write: %v", err)
 			}
 			if err := w.writePoint(metric, "a", slotOf("fam2"), 1, 1); err != nil {
-				vevid.Fatal("special write: %v", err)
+				vevid.OpFailed("special write: %v", err)
 			}
 			t1 := fasttime.UnixNano()
 			w.lastCreate = t1
@@ -368,19 +368,19 @@ func sameTick(w *world, rep *vevid.Report) {
 				switch op {
 				case "F":
 					if err := w.box.Flush(shardID, w.bothFamilies()); err != nil {
-						vevid.Fatal("special flush: %v", err)
+						vevid.OpFailed("special flush: %v", err)
 					}
 					m.flush()
 				case "R":
 					if err := w.reopen(); err != nil {
-						vevid.Fatal("special reopen: %v", err)
+						vevid.OpFailed("special reopen: %v", err)
 					}
 					w.flushedSinceOpen = false
 					m.reopen()
 				case "w":
 					w.newTick()
 					if err := w.writePoint(metric, "a", slotOf("next"), 16, 2); err != nil {
-						vevid.Fatal("special write: %v", err)
+						vevid.OpFailed("special write: %v", err)
 					}
 					w.lastCreate = fasttime.UnixNano()
 					m.write("a", slotOf("next"), 16)
@@ -402,7 +402,7 @@ func emptyMetaFlush(w *world, rep *vevid.Report) {
 		}
 		// fresh in-memory metadata stores
 		if err := w.reopen(); err != nil {
-			vevid.Fatal("special reopen: %v", err)
+			vevid.OpFailed("special reopen: %v", err)
 		}
 		w.flushedSinceOpen = false
 		w.seq++
@@ -410,18 +410,18 @@ func emptyMetaFlush(w *world, rep *vevid.Report) {
 		y := fmt.Sprintf("%sy%d", w.prefix, w.seq)
 		w.newTick()
 		if err := w.writePoint(x, "a", slotOf("same"), 4, 0); err != nil {
-			vevid.Fatal("special write: %v", err)
+			vevid.OpFailed("special write: %v", err)
 		}
 		w.lastCreate = fasttime.UnixNano()
 		for i := 0; i < 2; i++ { // the second flush has nothing new to write
 			if err := w.box.Flush(shardID, w.bothFamilies()); err != nil {
-				vevid.Fatal("special flush: %v", err)
+				vevid.OpFailed("special flush: %v", err)
 			}
 		}
 		m := newModel()
 		w.newTick()
 		if err := w.writePoint(y, "a", slotOf("same"), 1, 0); err != nil {
-			vevid.Fatal("special write: %v", err)
+			vevid.OpFailed("special write: %v", err)
 		}
 		w.lastCreate = fasttime.UnixNano()
 		m.write("a", slotOf("same"), 1)
@@ -429,12 +429,12 @@ func emptyMetaFlush(w *world, rep *vevid.Report) {
 			switch op {
 			case "F":
 				if err := w.box.Flush(shardID, w.bothFamilies()); err != nil {
-					vevid.Fatal("special flush: %v", err)
+					vevid.OpFailed("special flush: %v", err)
 				}
 				m.flush()
 			case "R":
 				if err := w.reopen(); err != nil {
-					vevid.Fatal("special reopen: %v", err)
+					vevid.OpFailed("special reopen: %v", err)
 				}
 				m.reopen()
 			}
